@@ -3,6 +3,7 @@ mod c01;
 mod c02;
 mod c03;
 mod c06;
+mod c08;
 mod selftest;
 
 fn main() {
@@ -18,6 +19,7 @@ fn main() {
         "C02" => c02::run(tier),
         "C03" => c03::run(tier),
         "C06" => c06::run(tier),
+        "C08" => c08::run(tier),
         "load-probe" => c06::load_probe_child(&args[3]),
         other => {
             eprintln!("unknown sub-command {}", other);
